@@ -541,13 +541,21 @@ func checkC01(c C01Case, o *h.Obs) *h.Fail {
 	if got.Malformed != "" {
 		return h.Failf("malformed", "%s result %v", c.Op, got)
 	}
+	if (len(c.X.D)+int(c.P))%3 == 0 {
+		// in a third of the cases: the result must be the receiver's own, still intact after unrelated operations
+		// on other variables have cycled the library's pooled scratch buffers
+		h.DisturbPool()
+		if again := h.Read(zd); !again.SameAll(got) {
+			return h.Failf("unstable", "%s gave %v, but after unrelated operations on other variables the receiver reads %v", c.Op, got, again)
+		}
+	}
 	if !got.Val().Equal(want.V) {
 		return h.Failf("value", "%s: got %v, exact result %v rounded once to %d digits %v is %v", c.Op, got.Val(), exact, c.P, model.Mode(c.M), want.V)
 	}
 	return nil
 }
 
-const ruleC01 = "rapid-generated (op, operands, receiver precision, mode) for add/sub/mul/quo/set/setprec/neg/abs: operands from word-patterned digit generators (0, 10^19-1, 5*10^18, 10^k, 10^k-1 words, uniform filler), result-directed constructions (chosen exact sum split into addends; x=q*y(+r) with q carrying a tie / all-nines / just-above / just-below pattern at the precision), near-total cancellation, exponents at both ends of the int32 range, zero addends, an addend 4096 .. 140000 digits below the other (a few per run: 2^20 .. 2^27 digits below), dividends of 19500-24000 digits against short divisors, receivers aliased to an operand, about one case in 4000 with operands or precisions of 32768..131072 digits; oracle = math/big exact result rounded once by the reference Round (range rule included), compared on sign, digits, exponent read back through BitsExp; operands that are not the receiver must be unchanged. Non-trivial = the model result is inexact or left the finite range (rounding, overflow, underflow happened); distinct = distinct case encodings. Bounds: exponent gap of sums <= 600 (quick) / 6000 (thorough) digits, Quo precision <= 2000 / 40000, operands <= 2500 / 20000 digits."
+const ruleC01 = "rapid-generated (op, operands, receiver precision, mode) for add/sub/mul/quo/set/setprec/neg/abs: operands from word-patterned digit generators (0, 10^19-1, 5*10^18, 10^k, 10^k-1 words, uniform filler), result-directed constructions (chosen exact sum split into addends; x=q*y(+r) with q carrying a tie / all-nines / just-above / just-below pattern at the precision), near-total cancellation, exponents at both ends of the int32 range, zero addends, an addend 4096 .. 140000 digits below the other (a few per run: 2^20 .. 2^27 digits below), dividends of 19500-24000 digits against short divisors, receivers aliased to an operand, about one case in 4000 with operands or precisions of 32768..131072 digits; oracle = math/big exact result rounded once by the reference Round (range rule included), compared on sign, digits, exponent read back through BitsExp; operands that are not the receiver must be unchanged; in a third of the cases the receiver is read again after a fixed batch of unrelated divisions, products and a square root on private variables (pooled scratch buffers cycled) and must not have changed. Non-trivial = the model result is inexact or left the finite range (rounding, overflow, underflow happened); distinct = distinct case encodings. Bounds: exponent gap of sums <= 600 (quick) / 6000 (thorough) digits, Quo precision <= 2000 / 40000, operands <= 2500 / 20000 digits."
 
 var propC01 = &h.Prop[C01Case]{ID: "C01", Rule: ruleC01, Gen: genC01, Check: checkC01, Matchers: map[string]func(C01Case) bool{}}
 
